@@ -1,6 +1,7 @@
 #!/bin/bash
 # tools/cov_audit.sh [tier] [Cxx ...]  — line/branch coverage of /repo/nixio reached by the checks (audit aid, not evidence).
-# Writes /dev/shm/covaudit/report.txt (missing lines per file) and per-check summaries.
+# Each check runs on a prefix of its shuffled case list (VERIF_CASE_LIMIT, default 400) with few workers.
+# Writes /dev/shm/covaudit/report.txt (missing lines per file).
 here="$(dirname "$(readlink -f "$0")")"; cd "$here/.."
 tier="${1:-quick}"; shift
 checks="$@"; [ -z "$checks" ] && checks="$(seq -f 'C%02g' 1 20)"
@@ -18,9 +19,8 @@ EOC
 export VERIF_CASE_LIMIT=${VERIF_CASE_LIMIT:-400} VERIF_WORKERS=${VERIF_WORKERS:-4}
 export PYTHONHASHSEED=0 PYTHONDONTWRITEBYTECODE=1 NIXPY_VERIF=1 HDF5_USE_FILE_LOCKING=FALSE OMP_NUM_THREADS=1 VERIF_OUT=$W/out
 for c in $checks; do
-  /venv/bin/python -W ignore -m coverage run --rcfile=$W/rc -m mc.core $c $tier 2>&1 | tail -1
-  ( cd $W && /venv/bin/python -m coverage combine --rcfile=$W/rc -q --keep --data-file=$W/$c.cov $W/data >/dev/null 2>&1; rm -f $W/data/.coverage.* )
+  timeout 1200 /venv/bin/python -W ignore -m coverage run --rcfile=$W/rc -m mc.core $c $tier 2>&1 | tail -1 | cut -c1-200
 done
-cd $W && /venv/bin/python -m coverage combine --rcfile=$W/rc -q --keep --data-file=$W/all.cov $W/C*.cov
+cd $W && /venv/bin/python -m coverage combine --rcfile=$W/rc -q --data-file=$W/all.cov $W/data
 /venv/bin/python -m coverage report --rcfile=$W/rc --data-file=$W/all.cov -m > $W/report.txt 2>&1
 tail -45 $W/report.txt | cut -c1-60
